@@ -90,7 +90,7 @@ def _gen(rng, kind, dom, n):
 
 
 def generate(rng, tier):
-    n = 300 if tier == "quick" else 2400
+    n = 300 if tier == "quick" else 4000
     out = []
     for i in range(n):
         kind = rng.choice(["durq", "dusq"])
